@@ -13,6 +13,8 @@ var c08Lines = []string{
 	`{}`, `[1]`, `{"a":"x\ny"}`, `["a b"]`, `[true]`,
 	`[`, `1`, `{} {}`, `[1,`, `2]`, `}`,
 	``, ` `, "\t", "\r",
+	// a document spanning two lines through a string with a raw line feed in it
+	`{"id":7,"note":"first half`, `second half"}`,
 }
 
 // forEachNDInput enumerates the NDJSON input space shared by C08 and C17.
@@ -21,7 +23,7 @@ func forEachNDInput(w *W, fn func(name string, text []byte)) {
 	if w.Thorough() {
 		L = 5
 	}
-	w.Note(fmt.Sprintf("line sequences: all sequences of <= %d lines over %d lines (5 valid documents, 6 invalid, 4 blank) x {LF, CRLF} x {final newline, none}", L, len(c08Lines)))
+	w.Note(fmt.Sprintf("line sequences: all sequences of <= %d lines over %d lines (5 valid documents, 6 invalid, 4 blank, 2 halves of a document split inside a string) x {LF, CRLF} x {final newline, none}", L, len(c08Lines)))
 	var seq []int
 	var last []byte
 	emit := func() {
@@ -120,6 +122,35 @@ func forEachNDInput(w *W, fn func(name string, text []byte)) {
 		w.res.Transitions++
 		fn("8k", b.Bytes())
 	}
+	// inputs above the 8 KiB threshold with exactly one bad line first, in the middle or last
+	badLines := []string{`[`, `1`, `{} {}`, `[1,`, `2]`, `}`, `[{"id":1}`, `{"a":{"b":1}`, `{"a":"x`, `y"}`, "[\"a\tb\"]", `[tru]`, `{"a":1,}`, `[01]`}
+	w.Note(fmt.Sprintf("large inputs: 420 valid lines (~8.8 KB, concurrent path) with one of %d bad lines (incl. lines that leave a scope open yet end in } or ]) placed first, in the middle or last; LF and CRLF", len(badLines)))
+	for bi, bad := range badLines {
+		for pos := 0; pos < 3; pos++ {
+			w.res.States++
+			if !w.Mine() || w.Expired() {
+				continue
+			}
+			for eol := 0; eol < 2; eol++ {
+				var b bytes.Buffer
+				nl := "\n"
+				if eol == 1 {
+					nl = "\r\n"
+				}
+				for i := 0; i < 420; i++ {
+					if (pos == 0 && i == 0) || (pos == 1 && i == 210) {
+						b.WriteString(bad + nl)
+					}
+					fmt.Fprintf(&b, "{\"i\":%d,\"s\":\"v%d\"}%s", i, (i*7+bi)%13, nl)
+				}
+				if pos == 2 {
+					b.WriteString(bad)
+				}
+				w.res.Transitions++
+				fn("large-one-bad-line", b.Bytes())
+			}
+		}
+	}
 	w.res.States++
 	if w.Mine() {
 		var b bytes.Buffer
@@ -135,6 +166,10 @@ func forEachNDInput(w *W, fn func(name string, text []byte)) {
 }
 
 // perLineVerdict applies the property's own definition with the real Parse.
+// lineCache remembers the real Parse's verdict per (config, line): the line alphabet is
+// tiny, the verdict of a line does not depend on its neighbours.
+var lineCache = map[string]bool{}
+
 func perLineVerdict(c Cfg, text []byte) (allOK bool, nonBlank int, panicked string) {
 	allOK = true
 	for _, line := range bytes.Split(text, []byte{'\n'}) {
@@ -142,11 +177,19 @@ func perLineVerdict(c Cfg, text []byte) (allOK bool, nonBlank int, panicked stri
 			continue
 		}
 		nonBlank++
-		_, err, p := doParse(c, line, nil, false)
-		if p != "" {
-			return false, nonBlank, p
+		key := c.String() + "\x00" + string(line)
+		ok, hit := lineCache[key]
+		if !hit {
+			_, err, p := doParse(c, line, nil, false)
+			if p != "" {
+				return false, nonBlank, p
+			}
+			ok = err == nil
+			if len(lineCache) < 1<<16 {
+				lineCache[key] = ok
+			}
 		}
-		if err != nil {
+		if !ok {
 			allOK = false
 		}
 	}
